@@ -371,3 +371,15 @@ M("str-no-prec", STR, "        taumin = np.amin(np.array([tausumweak, tausumstro
   ["C18:strength"], ["strength_without_precipitates", "not_min_of_branches"], "one pascal added to the combined precipitate strength (non-zero without precipitates)")
 M("gg-psd-negative", GG, "        self.pbm.UpdatePBMEuler(time, x[0])\n        self.pbm.adjustSizeClassesEuler(True)", "        self.pbm.UpdatePBMEuler(time, x[0])\n        self.pbm.PSD[0] = -abs(self.pbm.PSD[1])\n        self.pbm.adjustSizeClassesEuler(True)",
   ["C18:graingrowth"], ["grain_psd_invalid", "grain_volume_not_conserved", "mean_grain_size_decreases"], "first class of the grain size distribution made negative every step")
+M("mt-curvature-stale", MT, "        eq_results = self._getCompositionSetsEq(x, T, precPhase, self._compset_cache_curvature)\n        if eq_results is None:\n            return _process_invalid_eq('cached')", "        if not removeCache and self._compset_cache_curvature.get(precPhase) is not None and getattr(self, '_lastCurvX', None) is not None and np.shape(self._lastCurvX) == np.shape(x) and np.allclose(self._lastCurvX, x, rtol=0.5) and self._curvature_outputs.get(precPhase) is not None:\n            return self._curvature_outputs[precPhase]\n        self._lastCurvX = np.array(x)\n        eq_results = self._getCompositionSetsEq(x, T, precPhase, self._compset_cache_curvature)\n        if eq_results is None:\n            return _process_invalid_eq('cached')",
+  ["C09:query_sequences"], ["growth_history_dependent", "tieline_history_dependent"], "curvature factors of the previous query served again when the composition moved by less than 50 % and the cache is kept")
+M("th-df-order", TH, "        self._resetDrivingForceCache(precPhase, removeCache)\n        return np.squeeze(dg), np.squeeze(xb[unsortIndices[1:]])", "        self._resetDrivingForceCache(precPhase, removeCache)\n        return np.squeeze(dg) + 50.0*np.ravel(x)[0], np.squeeze(xb[unsortIndices[1:]])",
+  ["C11:element_order_queries"], ["driving_force_order_dependent"], "tangent driving force gains 50 J/mol times the first listed solute fraction", count=1)
+M("dp-fractions-order", DP, "        phase_fracs = np.array(phase_fracs, dtype=np.float64)\n        for p, cs in enumerate(comp_sets):", "        phase_fracs = np.array(phase_fracs, dtype=np.float64) * (1 + 1e-3*np.ravel(x)[0])\n        for p, cs in enumerate(comp_sets):",
+  ["C11:element_order_mobility"], ["phase_fractions_order_dependent"], "phase fractions scaled by 1 + 1e-3 times the first listed solute fraction")
+M("sf-radii-shape", SF, "        ar = self._processAspectRatio(ar)\n        return np.squeeze(self._normalRadii(ar))", "        ar = self._processAspectRatio(ar)\n        return self._normalRadii(ar)",
+  ["C15:geometry+at_one"], ["radii_shape", "array_shape"], "normalRadii of a description no longer squeezes: a scalar aspect ratio gives shape (1,3)")
+M("el-rot-axes", EF, "            np.tensordot(rot, tensor, axes=(1,3)), axes=(1,3)), axes=(1,3)), axes=(1,3))", "            np.tensordot(rot, tensor, axes=(1,3)), axes=(1,3)), axes=(1,3)), axes=(1,2))",
+  ["C16:conversions+quadratic"], ["rotation_not_invertible", "setter_order_matters", "isotropic_not_invariant"], "last contraction of the rank-4 rotation over the wrong axis")
+M("solver-inplace", SOLV, "        return x + self._flattenX(unflatdxdt)*dt", "        for xi in self._X0:\n            if hasattr(xi, 'shape') and getattr(xi, 'ndim', 0) > 0:\n                xi *= (1 + 1e-12)\n        return x + self._flattenX(unflatdxdt)*dt",
+  ["C06:stages", "C05"], ["state_modified_solve", "state_modified"], "the solver touches the model's state arrays in place while updating")
